@@ -54,7 +54,7 @@ pub fn run(ctx: &Ctx) {
          contains a marker secret, and the session is never bound to _internal afterwards. Non-trivial = `_internal` is named on a line \
          other than the first, or a session is used. Distinct = case JSON.",
     );
-    ctx.run_part("internal_kg_programs", ctx.cases(1500, 40_000), || tape_strategy(80).prop_map(|t| decode(&t, true)), |c, o| check(ctx, c, o));
+    ctx.run_part("internal_kg_programs", ctx.cases(8000, 120_000), || tape_strategy(80).prop_map(|t| decode(&t, true)), |c, o| check(ctx, c, o));
 }
 
 pub fn replay(ctx: &Ctx, part: &str, case: &J) -> Option<Result<CheckResult, String>> {
